@@ -151,3 +151,23 @@ class ExactTableW(ExactTable):
 
     def fit(self, X, y, w=None):  # noqa: D102
         return ExactTable.fit(self, X, y, sample_weight=w)
+
+
+class ShiftScorer(BaseEstimator):
+    """A scorer whose predictions depend on the data it was fitted on: score = x - mean(training x).
+    (A stale base estimator kept from an earlier fit therefore shows in the predictions.)"""
+
+    def __init__(self, col=0):
+        self.col = col
+
+    def _raw(self, X):
+        if isinstance(X, pd.DataFrame):
+            return X.iloc[:, self.col].to_numpy(dtype=float)
+        return np.asarray(X, dtype=float)[:, self.col]
+
+    def fit(self, X, y=None, **kwargs):
+        self.offset_ = float(np.mean(self._raw(X)))
+        return self
+
+    def predict(self, X):
+        return self._raw(X) - self.offset_
